@@ -50,7 +50,7 @@ CONSTANTS Anys,     \* the any objects: 1..NA
 VARIABLES a,        \* a[k] \in {RAW, EMPTY, UNT} \cup ids
           u,        \* u[k]: the untracked object contained in any k (NoU if none)
           lt,       \* lifetime record of instrumented payload objects
-          env,      \* build configuration the property is parametrised by: [noexc |-> XTL_NO_EXCEPTIONS]
+          env,      \* build configuration the property is parametrised by: [noexc |-> XTL_NO_EXCEPTIONS, mov |-> ANY_IMPL_ANY_CAST_MOVEABLE]
           last,     \* ghost: the call just performed [op, k, a, ev, res]
           pre       \* ghost: [a, u, lt] before that call
 
@@ -63,7 +63,10 @@ UNT   == 0
 Has(x) == x >= 1
 NA == Cardinality(Anys)
 
-UntrackedTypes == {"Int", "Str", "CStr", "Fn", "Sp", "Ov", "Nest"}   \* no element events
+UntrackedTypes == {"Int", "Str", "CStr", "Fn", "Sp", "Ov", "Nest",   \* no element events
+                   "Ov32", "Ov64",      \* over-aligned beyond max_align_t (32 / 64 bytes)
+                   "P16", "P17",        \* byte-aligned, exactly two words / two words + 1 byte
+                   "Var", "Fs", "Opt"}  \* neighbouring components as payloads: xtl::variant<int,string>, xfixed_string, xoptional<int>
 CountedTypes   == {"Sp", "Nest"}                                     \* own one shared_ptr control block (named by the value)
 DecayTypes     == {"CStr", "Fn"}                                     \* can also be stored from an array / a function (decay)
 NeverStored    == {"CharP", "AnyT", "Arr"}                           \* cast targets that are never the decayed type of a stored value
@@ -75,6 +78,14 @@ FuseRes == [NoRes EXCEPT !.exc = "fuse"]
 BadCast == [NoRes EXCEPT !.exc = "bad_any_cast"]
 TermRes == [NoRes EXCEPT !.exc = "terminate"]
 NullRes == [NoRes EXCEPT !.null = TRUE]
+(* Allocation failure (round 3).  g.afuse = n > 0: the n-th request for storage made while the library executes the call
+   fails (the replaced global operator new throws std::bad_alloc).  Whether and how often a call allocates is up to the
+   implementation, so an armed afuse may or may not fire; when it fires the call ends with bad_alloc, no element "throw"
+   event, and the same guarantees as for a throwing payload constructor: no object from a failed constructor, the
+   target of a failed assignment keeps its value. *)
+AllocRes == [NoRes EXCEPT !.exc = "bad_alloc"]
+AF(g) == IF "afuse" \in DOMAIN g THEN g.afuse ELSE 0
+AllocatingOps == {"Construct", "CopyConstruct", "CopyAssign", "AssignValue"}    \* the only calls that may need storage for a new payload
 (* a failing reference/value cast: throws bad_any_cast; std::terminate when exceptions are compiled out *)
 CastFails == IF env.noexc THEN TermRes ELSE BadCast
 
@@ -82,7 +93,9 @@ CastFails == IF env.noexc THEN TermRes ELSE BadCast
 (* Operations (every public member and non-member of xany.hpp):
      DefaultConstruct   any()
      Construct          any(ValueType&&)           g.t, g.v: type and value; g.form: how the value is passed
-     CopyConstruct      any(const any&)            g.j: source (g.nc = 1: passed as a non-const lvalue)
+     CopyConstruct      any(const any&)            g.j: source; g.nc: its value category - 0 const lvalue, 1 non-const lvalue,
+                                                   2 CONST RVALUE (any(static_cast<const any&&>(x)): still a copy, [any.cons]: the converting
+                                                   constructor does not participate for decay_t<ValueType> = any); same for CopyAssign
      MoveConstruct      any(any&&)
      CopyAssign         operator=(const any&)      g.j = k allowed
      MoveAssign         operator=(any&&)           g.j = k allowed
@@ -111,6 +124,7 @@ ObserverOps == {"HasValue", "Empty", "Type"}
 (* C++ preconditions of the call (and the protocol of explicit construction/destruction) *)
 Pre(op, k, g) ==
     /\ k \in Anys
+    /\ (AF(g) > 0 => op \in AllocatingOps)
     /\ CASE op \in {"DefaultConstruct", "Construct"} -> a[k] = RAW
          [] op \in {"CopyConstruct", "MoveConstruct"} -> a[k] = RAW /\ g.j \in Anys /\ g.j # k /\ a[g.j] # RAW
          [] op \in {"CopyAssign", "MoveAssign", "Swap", "StdSwap"} -> a[k] # RAW /\ g.j \in Anys /\ a[g.j] # RAW
@@ -161,7 +175,8 @@ Valid(W2, k) == W2.a[k] = EMPTY \/ Contains(W2, k)
 Post(op, k, g, W, W2, res, threw) ==
     LET Fr(T) == \A i \in Anys \ T : Same(W, i, W2)
         None  == res = NoRes /\ ~threw
-        Fuse  == res = FuseRes /\ threw /\ g.fuse > 0
+        Fuse  == \/ res = FuseRes /\ threw /\ g.fuse > 0
+                 \/ res = AllocRes /\ ~threw /\ AF(g) > 0 /\ op \in AllocatingOps     \* storage could not be obtained
         x     == W.a[k]
     IN CASE op = "DefaultConstruct" -> None /\ W2.a[k] = EMPTY /\ Fr({k})
          [] op = "Construct" ->
@@ -225,6 +240,24 @@ Post(op, k, g, W, W2, res, threw) ==
                 ELSE ~threw /\ res = NullRes /\ Fr({})
          [] OTHER -> FALSE
 
+(* Storage (round 3): heap = number of blocks obtained from operator new while the library executed allocating calls and
+   not yet given back.  When no any object contains anything, none may be outstanding (a block that outlives its object is
+   a leak even if the object's destructor ran); the count is never negative. *)
+HeapOK(x, heap) == /\ heap >= 0
+                   /\ (\A k \in Anys : x[k] \in {RAW, EMPTY}) => heap = 0
+
+(* Documented behaviour of the value-returning any_cast on tracked payloads (advisory, "strict" trace validation): the
+   result is made by exactly ONE constructor call from the stored object - a move if the build defines
+   ANY_IMPL_ANY_CAST_MOVEABLE and the operand is an rvalue any and the target is not const-qualified (LWG 2509), a copy
+   otherwise (N4562) - so a stored object is moved from at most once per cast and never by an lvalue cast. *)
+CtorEvents(evs) == SelectSeq(evs, LAMBDA e : e.e = "ctor")
+CastDocOK(op, k, g, evs, res) ==
+    (op = "Cast" /\ g.form \in ValForms /\ res.exc = "none" /\ Has(a[k]) /\ res.id > 0) =>
+        LET cs == CtorEvents(evs) IN
+        /\ Len(cs) = 1
+        /\ cs[1].src = a[k] /\ cs[1].id = res.id
+        /\ cs[1].kind = (IF env.mov /\ g.form = "v_r" THEN "move" ELSE "copy")
+
 (* Is the call (op, k, g) with element events evs, result res and contents a2, u2 (owner counts spc) afterwards allowed now? *)
 CallOK(op, k, g, evs, res, a2, u2, spc) ==
     LET F == Fold(lt, evs, 1) IN
@@ -247,7 +280,7 @@ InitWith(h) ==
     /\ a = [k \in Anys |-> RAW]
     /\ u = [k \in Anys |-> NoU]
     /\ lt = NoObjects(h)
-    /\ env = [noexc |-> FALSE]
+    /\ env = [noexc |-> FALSE, mov |-> FALSE]
     /\ last = [op |-> "Init", k |-> 0, a |-> [fuse |-> 0], ev |-> <<>>, res |-> NoRes]
     /\ pre = [a |-> [k \in Anys |-> RAW], u |-> [k \in Anys |-> NoU], lt |-> NoObjects(h)]
 Init == InitWith(0)
